@@ -31,4 +31,13 @@ def rule_until(ctx):
     ctx.res.minimum("O7.3", 1)
 
 
-RULES = [rule_window, rule_until]
+def rule_physical_rows(ctx):
+    """O7.4: 'row number' means the physical row: the ODS reader returns empty rows too (C15's table), so header rows and
+    the limit count the rows a user sees in the sheet."""
+    from .c15 import rule_empty_rows
+
+    rule_empty_rows(ctx, "O7.4")
+    ctx.res.minimum("O7.4", 1)
+
+
+RULES = [rule_window, rule_until, rule_physical_rows]
